@@ -135,11 +135,18 @@ def _tokens(sc):
 
 
 def execute(sc):
+    import clikit.ui.components.progress_bar as pb
+    import clikit.ui.components.progress_indicator as pi
+    from ..clock import TimeShim, VirtualClock
     old = {k: os.environ.get(k) for k in ("COLUMNS", "LINES")}
     os.environ["COLUMNS"], os.environ["LINES"] = "120", "40"
+    shim = TimeShim(VirtualClock())
+    old_t = (pb.time, pi.time)
+    pb.time = pi.time = shim  # the components the handler uses read a frozen virtual clock
     try:
         return _run(sc)
     finally:
+        pb.time, pi.time = old_t
         for k, v in old.items():
             if v is None:
                 os.environ.pop(k, None)
@@ -173,6 +180,9 @@ def _run(sc):
         script.append(["out", "<info>OUT-%s</info>" % tag, flag])
         script.append(["err", "<comment>ERR-%s</comment>" % tag, flag])
     script.append(["section", "<info>SEC-one</info>", "<info>SEC-two</info>"])
+    if sc.get("components", True):
+        script.append(["indicator"])
+        script.append(["progress"])
     script.append(["ask", sc["question_default"]])
     script.append(["readline", "fallback-line"])
     if sc["raises"]:
@@ -230,6 +240,8 @@ def _run(sc):
             res.probe("quiet_with_raise")
             res.fault("handler_raises_under_quiet")
     if has("no_ansi") and not has("ansi"):
+        if "\r" in o or "\r" in e:
+            res.violate("no_ansi", "carriage_return", "--no-ansi run emitted a carriage return (cursor control) (tokens %r)" % (tokens,))
         if "\x1b" in o or "\x1b" in e:
             res.violate("no_ansi", "escape", "--no-ansi run emitted an escape sequence (tokens %r): %r" % (tokens, (o + e)[:80]))
         if sc["tty_out"] or sc["tty_err"]:
@@ -322,6 +334,8 @@ def _run(sc):
             res.violate("verbosity", "stdout_lines", "line of level %r %s at verbosity %r (tokens %r)" % (flag, "missing" if should else "present", level, tokens))
         if ("ERR-%s\n" % tag in se) != should:
             res.violate("verbosity", "stderr_lines", "line of level %r %s at verbosity %r (tokens %r)" % (flag, "missing" if should else "present", level, tokens))
+    if "spin done" not in se or "3/3" not in se:
+        res.violate("handler", "components", "progress indicator / progress bar output missing on stderr: %r" % se[-160:])
     if "SEC-two\n" not in so:
         res.violate("handler", "section_output", "the section written by the handler is missing: %r" % so[-120:])
     # decoration
